@@ -367,18 +367,66 @@ pub fn run_with(rng: &mut Rng, n: usize, rep: &mut Report, lines: &mut Option<Ve
         //      whatever ends up in the bank must be a coherent configuration
         {
             use marginfi_type_crate::types::{StakedSettings, WrappedI80F48};
-            let key = s.w.new_key();
             let oracle = s.w.new_key();
-            let mut st: StakedSettings = bytemuck::Zeroable::zeroed();
-            st.key = key;
-            st.marginfi_group = s.group;
-            st.oracle = oracle;
-            st.asset_weight_init = I80F48::from_num(0.8).into();
-            st.asset_weight_maint = I80F48::from_num(0.9).into();
-            st.deposit_limit = 1_000_000_000_000;
-            st.oracle_max_age = 60;
-            st.risk_tier = RiskTier::Collateral;
-            s.w.put_zc(key, &st);
+            // the settings account is created by the REAL init_staked_settings (a PDA of the group, really `init`ed); first a few
+            // probes on copies of the world: whatever initial settings it accepts must be coherent, only the group admin may
+            // create them, only at the group's PDA, only once
+            let (key, _) = Pubkey::find_program_address(&[marginfi_type_crate::constants::STAKED_SETTINGS_SEED.as_bytes(), s.group.as_ref()], &marginfi::ID);
+            let init_ix = |group: Pubkey, admin: Pubkey, at: Pubkey, wi: i128, wm: i128, tier: RiskTier, age: u16| Instruction {
+                program_id: marginfi::ID,
+                accounts: marginfi::accounts::InitStakedSettings { marginfi_group: group, admin, fee_payer: admin, staked_settings: at, system_program: solana_program::system_program::ID }.to_account_metas(None),
+                data: marginfi::instruction::InitStakedSettings { settings: marginfi::instructions::marginfi_group::StakedSettingsConfig {
+                    oracle, asset_weight_init: I80F48::from_bits(wi).into(), asset_weight_maint: I80F48::from_bits(wm).into(),
+                    deposit_limit: 1_000_000_000_000, total_asset_value_init_limit: 0, oracle_max_age: age, risk_tier: tier } }.data(),
+            };
+            for _ in 0..8 {
+                let mut w2 = s.w.clone();
+                let pick_w = |rng: &mut Rng| -> i128 { match rng.below(6) { 0 => 0, 1 => ONE as i128, 2 => 2 * ONE as i128 + rng.range(-2, 2) as i128, 3 => rng.range(-3, 3) as i128, 4 => ONE as i128 + rng.range(-2, 2) as i128, _ => rng.below(3 * ONE as u64) as i128 } };
+                let (wi, wm) = (pick_w(rng), pick_w(rng));
+                let tier = if rng.chance(1, 4) { RiskTier::Isolated } else { RiskTier::Collateral };
+                let who = match rng.below(4) { 0 => w2.add_wallet(1_000_000_000), _ => s.admin };
+                let at = if rng.chance(1, 6) { w2.new_key() } else { key };
+                let before = w2.accounts.clone();
+                let r = w2.exec(&init_ix(s.group, who, at, wi, wm, tier, 60));
+                cells += 1;
+                rep.bump("cases");
+                rep.bump("staked_init_probes");
+                match r {
+                    Err(_) => { if w2.accounts != before { rep.fail("C08 a refused init_staked_settings changed the store".to_string()); } }
+                    Ok(()) => {
+                        rep.bump("staked_init_ok");
+                        if who != s.admin { rep.fail("C08 init_staked_settings succeeded for a signer who is not the group admin".to_string()); }
+                        if at != key { rep.fail("C08 init_staked_settings created the settings somewhere else than at the group's PDA".to_string()); }
+                        let st: StakedSettings = w2.read_zc(&at);
+                        let (gi, gm) = (w(st.asset_weight_init), w(st.asset_weight_maint));
+                        let one = ONE as i128;
+                        if !(0 <= gi && gi <= one && gi <= gm && gm <= 2 * one) || (st.risk_tier == RiskTier::Isolated && (gi != 0 || gm != 0)) {
+                            rep.fail(format!("init_staked_settings accepted incoherent initial settings: weights ({}, {}), tier isolated {}", gi, gm, st.risk_tier == RiskTier::Isolated));
+                        }
+                        if gi != wi || gm != wm || st.marginfi_group != s.group || st.key != at || st.oracle != oracle {
+                            rep.fail("init_staked_settings stored something else than the settings given (weights / group / key / oracle)".to_string());
+                        }
+                        // once only
+                        let before2 = w2.accounts.clone();
+                        if w2.exec(&init_ix(s.group, s.admin, at, 0, 0, RiskTier::Collateral, 60)).is_ok() { rep.fail("C08 init_staked_settings succeeded a second time on the same group".to_string()); }
+                        else if w2.accounts != before2 { rep.fail("C08 a refused second init_staked_settings changed the store".to_string()); }
+                    }
+                }
+            }
+            if s.w.exec(&init_ix(s.group, s.admin, key, (ONE as i128) * 8 / 10, (ONE as i128) * 9 / 10, RiskTier::Collateral, 60)).is_err() {
+                rep.fail("init_staked_settings refused plain valid settings (0.8 / 0.9, collateral tier) from the group admin".to_string());
+                // fall back to a fabricated account so that the rest of the block still runs
+                let mut st: StakedSettings = bytemuck::Zeroable::zeroed();
+                st.key = key;
+                st.marginfi_group = s.group;
+                st.oracle = oracle;
+                st.asset_weight_init = I80F48::from_num(0.8).into();
+                st.asset_weight_maint = I80F48::from_num(0.9).into();
+                st.deposit_limit = 1_000_000_000_000;
+                st.oracle_max_age = 60;
+                st.risk_tier = RiskTier::Collateral;
+                s.w.put_zc(key, &st);
+            }
             // bank 1 becomes a staked-collateral bank that already uses the settings' oracle (so that propagation does not
             // re-validate the oracle accounts, which would need a stake pool)
             let mut bk = s.w.bank(&h1.bank);
